@@ -300,3 +300,25 @@ def par_send(self: Obj("YowParallelLayer"), data: Opaque("data")):
 @loop(LAYERS, "YowParallelLayer.send", 1)
 def par_send_loop(self, data):
     invariant(events("layer.send") == self.sublayers[:loop_k()] and n_events("layer.receive") == 0)
+
+
+# ---- a layer added on top of a constructed stack -------------------------------------------------------------------------------------
+event_sort("layer.setLayers", "obj")
+extern("*.setLayers", event="layer.setLayers")
+
+
+@contract(STACK, "YowStack.addPostConstructLayer")
+def addPostConstructLayer(self: Obj("YowStack"), layer: Opaque("layer")):
+    requires(len(self._YowStack__stackInstances) >= 2)
+    modifies(self._YowStack__stackInstances)
+    # the old top keeps its lower neighbour and gets the new layer above it; the new layer sits on the old top with nothing above; it
+    # becomes the top instance - for EVERY stack height the constructor can produce, two layers included
+    ensures(n_events("layer.setLayers") == 2)
+    ensures(same_obj(event_arg("layer.setLayers", 0, 0), old(self._YowStack__stackInstances)[len(old(self._YowStack__stackInstances)) - 1])
+            and same_obj(event_arg("layer.setLayers", 0, 1), layer)
+            and same_obj(event_arg("layer.setLayers", 0, 2), old(self._YowStack__stackInstances)[len(old(self._YowStack__stackInstances)) - 2]))
+    ensures(same_obj(event_arg("layer.setLayers", 1, 0), layer) and event_arg("layer.setLayers", 1, 1) is None
+            and same_obj(event_arg("layer.setLayers", 1, 2), old(self._YowStack__stackInstances)[len(old(self._YowStack__stackInstances)) - 1]))
+    ensures(len(self._YowStack__stackInstances) == len(old(self._YowStack__stackInstances)) + 1
+            and same_obj(self._YowStack__stackInstances[len(self._YowStack__stackInstances) - 1], layer)
+            and forall(range(0, len(old(self._YowStack__stackInstances))), lambda i: self._YowStack__stackInstances[i] == old(self._YowStack__stackInstances)[i]))
